@@ -403,6 +403,144 @@ def roles(case: int) -> bool:
     return verdict(ok, nontrivial=nt, sample=sample)
 
 
+# ---- (b-real) curated real vocabulary on the shipped ISA databases ---------------------------------
+# (line, registers read, registers written) - architectural roles written from the ISA manuals; only
+# instructions whose roles do not hinge on the documented default rule for forms without ISA entry
+
+VOCAB = {
+    "x86": [
+        ("addq %rax, %rbx", {"rax", "rbx"}, {"rbx"}), ("movq %rax, %rbx", {"rax"}, {"rbx"}), ("xorq %rax, %rax", set(), {"rax"}),
+        ("cmpq %rax, %rbx", {"rax", "rbx"}, set()), ("leaq 8(%rax,%rbx,2), %rcx", {"rax", "rbx"}, {"rcx"}), ("imulq %rax, %rbx", {"rax", "rbx"}, {"rbx"}),
+        ("imulq $3, %rax, %rbx", {"rax"}, {"rbx"}), ("vfmadd231pd %ymm1, %ymm2, %ymm3", {"ymm1", "ymm2", "ymm3"}, {"ymm3"}),
+        ("vaddpd %ymm1, %ymm2, %ymm3", {"ymm1", "ymm2"}, {"ymm3"}), ("movq (%rax), %rbx", {"rax"}, {"rbx"}), ("movq %rbx, (%rax)", {"rax", "rbx"}, set()),
+        ("incq %rax", {"rax"}, {"rax"}), ("subq %rax, %rax", set(), {"rax"}), ("vxorpd %xmm0, %xmm0, %xmm0", set(), {"xmm0"}), ("addq $1, (%rax)", {"rax"}, set()),
+        ("vmovapd %ymm1, %ymm2", {"ymm1"}, {"ymm2"}), ("testq %rax, %rax", {"rax"}, set()), ("shlq $2, %rax", {"rax"}, {"rax"}),
+        ("vdivsd %xmm1, %xmm2, %xmm3", {"xmm1", "xmm2"}, {"xmm3"}), ("movl $1, %eax", set(), {"eax"}), ("pxor %xmm1, %xmm1", set(), {"xmm1"}),
+        ("vcvtsi2sd %rax, %xmm1, %xmm2", {"rax", "xmm1"}, {"xmm2"}), ("jne .L1", set(), set()),
+    ],
+    "aarch64": [
+        ("add x1, x2, x3", {"x2", "x3"}, {"x1"}), ("adds x1, x2, x3", {"x2", "x3"}, {"x1"}), ("cmp x1, x2", {"x1", "x2"}, set()), ("mov x1, x2", {"x2"}, {"x1"}),
+        ("fmla v1.2d, v2.2d, v3.2d", {"v1", "v2", "v3"}, {"v1"}), ("fadd d1, d2, d3", {"d2", "d3"}, {"d1"}), ("ldr x1, [x2]", {"x2"}, {"x1"}),
+        ("ldr x1, [x2], #8", {"x2"}, {"x1", "x2"}), ("ldr x1, [x2, #8]!", {"x2"}, {"x1", "x2"}), ("str x1, [x2]", {"x1", "x2"}, set()),
+        ("stp x1, x2, [x3]", {"x1", "x2", "x3"}, set()), ("ldp x1, x2, [x3]", {"x3"}, {"x1", "x2"}), ("b.ne .L1", set(), set()),
+        ("madd x1, x2, x3, x4", {"x2", "x3", "x4"}, {"x1"}), ("csel x1, x2, x3, ne", {"x2", "x3"}, {"x1"}), ("fmov d1, d2", {"d2"}, {"d1"}),
+        ("scvtf d1, x2", {"x2"}, {"d1"}), ("subs x1, x1, #1", {"x1"}, {"x1"}), ("str x1, [x2], #8", {"x1", "x2"}, {"x2"}),
+        ("fmadd d1, d2, d3, d4", {"d2", "d3", "d4"}, {"d1"}), ("ldr q1, [x2, x3]", {"x2", "x3"}, {"q1"}), ("mul x1, x2, x3", {"x2", "x3"}, {"x1"}),
+        ("neg x1, x2", {"x2"}, {"x1"}), ("fmul v1.2d, v2.2d, v3.d[0]", {"v2", "v3"}, {"v1"}), ("dup v1.2d, x2", {"x2"}, {"v1"}), ("tst x1, x2", {"x1", "x2"}, set()),
+        ("tst w1, #3", {"w1"}, set()),
+    ],
+}
+_REAL = {}
+
+
+def _real_sem(isa):
+    if isa not in _REAL:
+        from harness.c06_memdep import SEM
+        _REAL[isa] = SEM[isa]
+    return _REAL[isa]
+
+
+def _rw_of(isa, form):
+    """register names read / written according to the assigned semantic operands"""
+    so = form.semantic_operands
+
+    def nm(r):
+        return ((r.prefix or "") + str(r.name)).lower()
+    R, Wr = set(), set()
+    for o in so["source"] + so["src_dst"]:
+        if isinstance(o, RegisterOperand):
+            R.add(nm(o))
+    for o in so["destination"] + so["src_dst"]:
+        if isinstance(o, RegisterOperand):
+            Wr.add(nm(o))
+    for o in so["source"] + so["src_dst"] + so["destination"]:
+        if isinstance(o, MemoryOperand):
+            if o.base is not None:
+                R.add(nm(o.base))
+            if o.index is not None:
+                R.add(nm(o.index))
+            if o.pre_indexed or o.post_indexed:
+                Wr.add(nm(o.base))
+    return R, Wr
+
+
+def _parse(isa, line, ln):
+    p = PX if isa == "x86" else PA
+    f = p.parse_line(line, ln)
+    f.flags = []
+    _real_sem(isa).assign_src_dst(f)
+    f.latency = f.latency_wo_load = 1.0
+    f.throughput = 1.0
+    f.latency_cp = f.latency_lcd = 0
+    return f
+
+
+def _real_roles_concrete(isa, i):
+    line, R, Wr = VOCAB[isa][i]
+    f = _parse(isa, line, 1)
+    gr, gw = _rw_of(isa, f)
+    return gr == R and gw == Wr, True, {"isa": isa, "line": line, "reads": sorted(R), "writes": sorted(Wr), "assigned_reads": sorted(gr), "assigned_writes": sorted(gw)}
+
+
+def real_roles(a64: bool, i: int) -> bool:
+    """
+    pre: 0 <= i < 27
+    post: _
+    """
+    isa = "aarch64" if a64 else "x86"
+    k = pick(i, 27)
+    if k >= len(VOCAB[isa]):
+        return True
+    if skip({"isa": isa, "line": VOCAB[isa][k][0]}):
+        return True
+    ok, nt, sample = native(_real_roles_concrete, isa, k)
+    return verdict(ok, nontrivial=nt, sample=sample)
+
+
+def _alias(isa, a, b):
+    p = PX if isa == "x86" else PA
+    if isa == "x86":
+        return bool(p.is_reg_dependend_of(RegisterOperand(name=a), RegisterOperand(name=b)))
+    return bool(p.is_reg_dependend_of(RegisterOperand(prefix=a[0], name=a[1:]), RegisterOperand(prefix=b[0], name=b[1:])))
+
+
+def _real_pairs_concrete(isa, i, j, k):
+    """kernel [A, B, C] from the vocabulary, registers as written: edges = RAW over the architectural roles"""
+    idx = [i, j, k]
+    forms = [_parse(isa, VOCAB[isa][x][0], n + 1) for n, x in enumerate(idx)]
+    g = DG(forms, NativeParser(PX if isa == "x86" else PA), model=mk_model(isa, ports=["0"], p_index_latency=1, store_to_load_forward_latency=0), sem=_real_sem(isa))
+    got = set((int(u) - 1, int(v) - 1) for u, v in g.dg.edges() if int(u) == u)
+    want = set()
+    for a in range(3):
+        for r in VOCAB[isa][idx[a]][2]:
+            for b in range(a + 1, 3):
+                if any(_alias(isa, r, x) for x in VOCAB[isa][idx[b]][1]):
+                    want.add((a, b))
+                if any(_alias(isa, r, x) for x in VOCAB[isa][idx[b]][2]):
+                    break
+    # store -> load edges through memory are C06's subject: ignore pairs (store, load) here
+    mem_pairs = set((a, b) for a in range(3) for b in range(a + 1, 3)
+                    if "(" in VOCAB[isa][idx[a]][0] or "[" in VOCAB[isa][idx[a]][0])
+    return (got - mem_pairs) == (want - mem_pairs), len(want) > 0, {"isa": isa, "kernel": [VOCAB[isa][x][0] for x in idx], "edges": sorted(map(list, want))}
+
+
+def real_pairs(a64: bool, i: int, j: int, k: int) -> bool:
+    """
+    pre: 0 <= i < 27 and 0 <= j < 27 and 0 <= k < 27
+    post: _
+    """
+    isa = "aarch64" if a64 else "x86"
+    lo, hi = shard(27)
+    if not (lo <= i < hi):
+        return True
+    n = len(VOCAB[isa])
+    a, b, c = pick(i, 27), pick(j, 27), pick(k, 27)
+    if a >= n or b >= n or c >= n or c != (a + b) % n:
+        return True        # third instruction determined by the first two: all ordered pairs, varied tails
+    ok, nt, sample = native(_real_pairs_concrete, isa, a, b, c)
+    return verdict(ok, nontrivial=nt, sample=sample)
+
+
 CELLS = {
     "raw3_x86": {"fn": raw3_x86, "bound": "n=3, 1 read + 1 write per instruction, all 203 register coincidence patterns x write kind (dst / read-modify-write) per instruction x {64-bit, 32-bit alias reads}",
                  "budget": {"quick": 170, "thorough": 600}, "shards": 15},
@@ -415,6 +553,8 @@ CELLS = {
                     "budget": {"quick": 170, "thorough": 600}, "shards": 5},
     "raw_mem_x86": {"fn": raw_mem_x86, "bound": "same without write-back on x86", "budget": {"quick": 170, "thorough": 600}, "shards": 5},
     "raw_weights": {"fn": raw_weights, "bound": "edge weights: all ints 0<=wo<=lat<=100, p_index_latency 0..20, with/without load stage (traced, numbers symbolic)", "budget": {"quick": 120, "thorough": 300}},
+    "real_roles": {"fn": real_roles, "bound": "curated vocabulary (23 x86 + 27 AArch64 instructions with architecturally known roles) parsed by the real parsers and assigned by the real isa/x86.yml / isa/aarch64.yml", "budget": {"quick": 120, "thorough": 300}},
+    "real_pairs": {"fn": real_pairs, "bound": "3-instruction kernels over all ordered pairs of the vocabulary (third = (i+j) mod n): DG edges = RAW over the architectural roles", "budget": {"quick": 170, "thorough": 600}, "shards": 9},
     "roles": {"fn": roles, "bound": "assign_src_dst on a synthetic ISA entry: 1-3 operands, every role combination (TT/TF/FT/FF per operand), hidden flag operand with each role, zero idiom x equal operands, entry absent (defaults), memory operand at each position with/without own entry (register-form fall-back), AArch64 pre/post-index; both ISAs",
               "budget": {"quick": 170, "thorough": 900}, "shards": 16},
 }
@@ -424,6 +564,6 @@ META = {
                   "ISASemantics._apply_found_ISA_data", "_get_regular_source_operands", "_get_regular_destination_operands", "_has_load", "_has_store",
                   "ISASemantics.substitute_mem_address", "MachineModel.get_instruction/_match_operands (register and wildcard-memory entries)"],
     "bounds": "kernels of 3-4 instructions; register identity by equality pattern; structure decided by the solver, the real code runs natively on each (fully concrete) structure; raw_weights is traced with symbolic latencies",
-    "outside": "instructions with more than one register destination plus write-back read by the same consumer (weight ambiguous); the curated real vocabulary on the shipped ISA files (b-real) is covered by harness c06 templates only for the mov/add/sub/inc/dec/ldr/str family; n > 4",
+    "outside": "instructions with more than one register destination plus write-back read by the same consumer (weight ambiguous); instructions outside the 50-entry curated vocabulary; forms without ISA entry whose architectural roles differ from the documented default rule (neg, bswap, cbz, ld1 lists ...); n > 4",
     "assumptions": ["alias relation itself is decided in C12; names per class are distinct architectural registers", "reference RAW relation vp.synth.ref_raw"],
 }
